@@ -530,7 +530,8 @@ def afterEnd (O : Oracles) (s : List Nat) (idx endIdx : Nat) (tok : Token) (zulu
         match slice s idx (idx + 1) with
         | none => .err
         | some sg => .cont { st1 with offNeg := st1.offNeg || (st1.prev.sep1.isNone && decide (sg = [45])), prevIdx := idx + 1 }
-      else .cont { st1 with prevIdx := idx + 1 }
+      -- a character that ended a numeric field without being its separator is the first one of the name that follows
+      else .cont { st1 with prevIdx := if endIdx = idx ∧ st1.tok.isNumeric = false ∧ st1.prev.sep1 = none then idx else idx + 1 }
     | r => r
 
 /-- the condition under which the loop body does anything: end of the text, a non-numeric character
@@ -539,16 +540,16 @@ def afterEnd (O : Oracles) (s : List Nat) (idx endIdx : Nat) (tok : Token) (zulu
 def trigger (len c idx : Nat) (st : St) : Bool :=
   decide (idx + 1 = len) || ((st.tok.isNumeric && !isNum c) || (!st.tok.isNumeric && st.cur.sepIs c))
 
-/-- `cur_token == Token::Timescale`: the rest of the text is the time scale, then `break` -/
+/-- `cur_token == Token::Timescale`: the time scale is the rest of the text — from the separator of this item
+    on, or the whole field (from `prev_idx`) at the last character —, trimmed, freed from second separators
+    of the previous item that still stand in front, trimmed again; then `break` -/
 def stepTimescale (s : List Nat) (len idx : Nat) (st : St) : Step :=
-  if idx + 1 ≠ len then
-    match dropBytes s idx with                -- `s.get(idx..)`
+  match dropBytes s (if idx + 1 ≠ len then idx else st.prevIdx) with       -- `s.get(start..)`
+  | none => .err
+  | some rest =>
+    match timescaleFromStr ((trim rest).dropWhile (fun c => decide (st.prev.sep2 = some c))) with
     | none => .err
-    | some rest =>
-      match timescaleFromStr rest with
-      | none => .err
-      | some ts => .brk { st with ts := ts }
-  else .brk st
+    | some ts => .brk { st with ts := ts }
 
 /-- `cur_token == OffsetHours && char == ':'`: `+HH:MM`, the hours end here and the minutes follow
     within the same item -/
@@ -566,7 +567,7 @@ def stepHours (s : List Nat) (idx : Nat) (st : St) : Step :=
     text (or on a non-numeric last character) the character must be a separator of the current item
     and the next item becomes current; on a numeric last character the field includes it. -/
 def stepField (O : Oracles) (f : Format) (s : List Nat) (len c idx : Nat) (st : St) : Step :=
-  if idx + 1 ≠ len ∨ isNum c = false then
+  if idx + 1 ≠ len ∨ (isNum c = false ∧ (st.tok.isNumeric = true ∨ st.cur.sep1 = some c)) then
     if st.cur.sepIsNot c && (st.cur.sep2.isNone || st.cur.sep2IsNot c) then .err
     else if st.curIdx + 1 ≥ f.items.length then .brk st     -- `cur_item_idx + 1 >= self.num_items`
     else if st.curIdx + 1 ≥ MAX_TOKENS then .panic          -- `self.items[cur_item_idx]`: impossible for a well-formed format
@@ -576,10 +577,15 @@ def stepField (O : Oracles) (f : Format) (s : List Nat) (len c idx : Nat) (st : 
       | some it => afterEnd O s idx idx st.tok false { st with prev := st.cur, curIdx := st.curIdx + 1, cur := it, tok := it.token }
   else afterEnd O s idx (idx + 1) st.tok false { st with prev := st.cur }
 
+/-- `s.as_bytes().get(k).map_or(false, |b| b.is_ascii_digit())`: every byte of a multi-byte character is ≥ 128 -/
+def byteIsDigitAt : List Nat → Nat → Bool
+  | [], _ => false
+  | c :: cs, k => if k < utf8Size c then decide (48 ≤ c ∧ c ≤ 57) else byteIsDigitAt cs (k - utf8Size c)
+
 /-- the body of the loop once `trigger` holds, in the order of the code -/
 def stepBody (O : Oracles) (f : Format) (s : List Nat) (len c idx : Nat) (st : St) : Step :=
   -- the sign of an hours offset that follows the separators of the previous token
-  if st.tok = .OffsetHours ∧ idx = st.prevIdx ∧ (c = 43 ∨ c = 45) then
+  if st.tok = .OffsetHours ∧ idx = st.prevIdx ∧ (c = 43 ∨ c = 45) ∧ byteIsDigitAt s (idx + 1) = true then
     .cont { st with offNeg := st.offNeg || decide (c = 45), prevIdx := st.prevIdx + 1 }
   -- the second separator of the previous token
   else if idx = st.prevIdx ∧ (st.prev.sep2 = none ∨ st.prev.sep2 = some c) then
